@@ -353,6 +353,13 @@ Definition parse_tuple_gen (f : fixes) (a b : targ) (ty : option (list Z)) (absa
               else ValueError
   end.
 
+(* TimeRange.parse(<TimeRange object>, absolute): the object itself, unless the argument contradicts its kind *)
+Definition parse_obj (r : tr) (absarg : option bool) : result tr :=
+  match absarg with
+  | None => Ok r
+  | Some b => if Bool.eqb b (absolute r) then Ok r else ValueError
+  end.
+
 (* ---- the working tree ------------------------------------------------------------------------- *)
 Definition init := init_gen current.
 Definition is_in_range := is_in_range_gen current.
